@@ -5,7 +5,7 @@ Theorem C10_once_checker : forall h, onceb [] [] [] [] h = true <-> Once h.
 Proof. exact onceb_spec. Qed.
 
 Theorem C10_valid_oracle : forall u P S,
-  o_valid u P S = true <-> valid (table_provider u) P S (exempt P S).
+  o_valid u P S = true <-> valid (table_provider u) P S (exempt (table_provider u) P S).
 Proof. exact o_valid_spec. Qed.
 
 Theorem C10_reference : forall u P, o_solvable u P = true <-> solvable (table_provider u) P.
